@@ -55,6 +55,16 @@ def main(argv):
         jobs = json.load(f)
     out = []
     job = jobs
+    if job.get("mode") == "c20":
+        # run the listed program operations, in the listed order, on one shared pool; digest every result
+        from aomon.checks import c20
+        ops = c20.program_ops(aotools)
+        pool = c20.make_pool(job["pool_seed"])
+        digs = {}
+        for k in job["order"]:
+            digs[str(k)] = c20.value_digest(ops[k][1](pool))
+        print("DIGESTS " + json.dumps(digs))
+        return
     obj = create(aotools, job["new"])
     digs = [digest(output_of(obj))]
     for _ in range(job["n_ops"]):
